@@ -1,6 +1,6 @@
 (* Property C09: Schmidt decomposition / composition: reshaping to the bipartition matrix and back is the identity. *)
 From Coq Require Import List Bool Arith NArith.
-From QV Require Import Sep SepModel.
+From QV Require Import Sep SepModel SepInj.
 Import ListNotations.
 
 Theorem C09_undo_sep : forall (A : Type) (mask : list bool) (digits : list A),
@@ -19,6 +19,20 @@ Theorem C09_index_roundtrip : forall n partition k, (k < 2 ^ N.of_nat n)%N ->
   let rc := sep (mask_of n partition) (digits n k) in undo_digits n partition (fst rc) (snd rc) = k.
 Proof. exact undo_sep_index. Qed.
 Print Assumptions C09_index_roundtrip.
+
+(* the reshaped matrix has the declared shape: rows indexed by the complement axes, columns by the partition axes *)
+Theorem C09_index_range : forall n partition k,
+  let m := mask_of n partition in
+  (fst (sep_index n partition k) < 2 ^ N.of_nat (length (filter (fun b => b) (map negb m))))%N /\
+  (snd (sep_index n partition k) < 2 ^ N.of_nat (length (filter (fun b => b) m)))%N.
+Proof. exact sep_index_range. Qed.
+Print Assumptions C09_index_range.
+
+(* no two amplitudes share a cell of the bipartition matrix: the reshape is a rearrangement *)
+Theorem C09_index_injective : forall n partition k k', (k < 2 ^ N.of_nat n)%N -> (k' < 2 ^ N.of_nat n)%N ->
+  sep_index n partition k = sep_index n partition k' -> k = k'.
+Proof. exact sep_index_inj. Qed.
+Print Assumptions C09_index_injective.
 
 Example ex_sep : sep_index 3 [0] 5%N = (1%N, 1%N) /\ sep_index 3 [2; 0] 6%N = (1%N, 2%N).
 Proof. vm_compute. auto. Qed.
